@@ -213,12 +213,13 @@ func drawSubneg(ul userList) ([]byte, string) {
 	if good.pass == pwCarol {
 		other = pwBob
 	}
-	if simrt.Choose(3, "skipsubneg") == 0 {
+	switch simrt.Choose(4, "subnegclass") {
+	case 0:
 		return nil, "none"
-	}
-	switch 1 + simrt.Choose(15, "subneg") {
 	case 1:
 		return encSubneg(1, []byte(good.user), []byte(good.pass)), "right"
+	}
+	switch 2 + simrt.Choose(14, "subneg") {
 	case 2:
 		return encSubneg(1, []byte(good.user), []byte("vfy-wrong")), "wrong-password"
 	case 3:
@@ -292,7 +293,11 @@ func drawCommand(id int) ([]byte, string) {
 
 func drawC21Script(ul userList, id int) c21Script {
 	var s c21Script
-	g := c21Greetings[simrt.Choose(len(c21Greetings), "greeting")]
+	gi := simrt.Choose(len(c21Greetings)+6, "greeting")
+	if gi >= len(c21Greetings) { // the four everyday offers carry extra weight
+		gi = []int{0, 1, 2, 3, 1, 2}[gi-len(c21Greetings)]
+	}
+	g := c21Greetings[gi]
 	s.bytes = encGreeting(g.ver, g.m)
 	s.marks = append(s.marks, len(s.bytes))
 	s.expect = append(s.expect, 2)
